@@ -64,6 +64,9 @@ var initSet = map[string]bool{
 	"golang.org/x/exp/rand": true, "unicode": true, "unicode/utf8": true, "strconv": true, "math/bits": true,
 }
 
+// nativeFn is an engine-implemented function value handed to target code.
+type nativeFn func(fr *frame, args []value) value
+
 type deferred struct {
 	fn    value
 	args  []value
@@ -76,7 +79,8 @@ type frame struct {
 	caller           *frame
 	fn               *ssa.Function
 	block, prevBlock *ssa.BasicBlock
-	env              map[ssa.Value]value
+	env              []value
+	code             *fnCode
 	locals           []value
 	defers           *deferred
 	result           value
@@ -102,8 +106,8 @@ func (fr *frame) get(key ssa.Value) value {
 			return r
 		}
 	}
-	if r, ok := fr.env[key]; ok {
-		return r
+	if slot, ok := fr.code.slotOf[key]; ok {
+		return fr.env[slot]
 	}
 	panic(fmt.Sprintf("get: no value for %T: %v", key, key.Name()))
 }
@@ -151,51 +155,51 @@ func derefNil(fr *frame) {
 	goPanic("runtime error: invalid memory address or nil pointer dereference")
 }
 
-func visitInstr(fr *frame, instr ssa.Instruction) continuation {
-	switch instr := instr.(type) {
+func visitInstr(fr *frame, pi *pinstr) continuation {
+	switch instr := pi.instr.(type) {
 	case *ssa.DebugRef:
 		// no-op
 
 	case *ssa.UnOp:
-		fr.env[instr] = unop(fr, instr, fr.get(instr.X))
+		fr.env[pi.dst] = unop(fr, instr, fr.arg(pi, 0))
 
 	case *ssa.BinOp:
-		fr.env[instr] = binop(fr, instr.Op, instr.X.Type(), fr.get(instr.X), fr.get(instr.Y))
+		fr.env[pi.dst] = binop(fr, instr.Op, instr.X.Type(), fr.arg(pi, 0), fr.arg(pi, 1))
 
 	case *ssa.Call:
-		fn, args := prepareCall(fr, &instr.Call)
-		fr.env[instr] = call(fr.i, fr, instr.Pos(), fn, args)
+		fn, args := prepareCall(fr, &instr.Call, pi)
+		fr.env[pi.dst] = call(fr.i, fr, instr.Pos(), fn, args)
 
 	case *ssa.ChangeInterface:
-		fr.env[instr] = fr.get(instr.X)
+		fr.env[pi.dst] = fr.arg(pi, 0)
 
 	case *ssa.ChangeType:
-		fr.env[instr] = fr.get(instr.X)
+		fr.env[pi.dst] = fr.arg(pi, 0)
 
 	case *ssa.Convert:
-		fr.env[instr] = conv(fr, instr.Type(), instr.X.Type(), fr.get(instr.X))
+		fr.env[pi.dst] = conv(fr, instr.Type(), instr.X.Type(), fr.arg(pi, 0))
 
 	case *ssa.SliceToArrayPointer:
-		fr.env[instr] = sliceToArrayPointer(instr.Type(), instr.X.Type(), fr.get(instr.X))
+		fr.env[pi.dst] = sliceToArrayPointer(instr.Type(), instr.X.Type(), fr.arg(pi, 0))
 
 	case *ssa.MakeInterface:
-		fr.env[instr] = iface{t: instr.X.Type(), v: fr.get(instr.X)}
+		fr.env[pi.dst] = iface{t: instr.X.Type(), v: fr.arg(pi, 0)}
 
 	case *ssa.Extract:
-		fr.env[instr] = fr.get(instr.Tuple).(tuple)[instr.Index]
+		fr.env[pi.dst] = fr.arg(pi, 0).(tuple)[instr.Index]
 
 	case *ssa.Slice:
-		fr.env[instr] = slice(fr, fr.get(instr.X), fr.get(instr.Low), fr.get(instr.High), fr.get(instr.Max))
+		fr.env[pi.dst] = slice(fr, fr.arg(pi, 0), fr.arg(pi, 1), fr.arg(pi, 2), fr.arg(pi, 3))
 
 	case *ssa.Return:
 		switch len(instr.Results) {
 		case 0:
 		case 1:
-			fr.result = fr.get(instr.Results[0])
+			fr.result = fr.arg(pi, 0)
 		default:
-			var res []value
-			for _, r := range instr.Results {
-				res = append(res, fr.get(r))
+			res := make([]value, len(instr.Results))
+			for k := range instr.Results {
+				res[k] = fr.arg(pi, k)
 			}
 			fr.result = tuple(res)
 		}
@@ -206,21 +210,21 @@ func visitInstr(fr *frame, instr ssa.Instruction) continuation {
 		fr.runDefers()
 
 	case *ssa.Panic:
-		panic(targetPanic{fr.get(instr.X)})
+		panic(targetPanic{fr.arg(pi, 0)})
 
 	case *ssa.Send:
 		fr.i.px.abort("unsupported", "channel send")
 
 	case *ssa.Store:
-		addr := fr.get(instr.Addr).(*value)
+		addr := fr.arg(pi, 0).(*value)
 		if addr == nil {
 			derefNil(fr)
 		}
-		store(mustDeref(instr.Addr.Type()), addr, fr.get(instr.Val))
+		store(mustDeref(instr.Addr.Type()), addr, fr.arg(pi, 1))
 
 	case *ssa.If:
 		succ := 1
-		switch c := fr.get(instr.Cond).(type) {
+		switch c := fr.arg(pi, 0).(type) {
 		case bool:
 			if c {
 				succ = 0
@@ -248,7 +252,7 @@ func visitInstr(fr *frame, instr ssa.Instruction) continuation {
 		return kJump
 
 	case *ssa.Defer:
-		fn, args := prepareCall(fr, &instr.Call)
+		fn, args := prepareCall(fr, &instr.Call, pi)
 		defers := &fr.defers
 		if into := fr.get(instr.DeferStack); into != nil {
 			defers = into.(**deferred)
@@ -270,15 +274,15 @@ func visitInstr(fr *frame, instr ssa.Instruction) continuation {
 		var addr *value
 		if instr.Heap {
 			addr = new(value)
-			fr.env[instr] = addr
+			fr.env[pi.dst] = addr
 		} else {
-			addr = fr.env[instr].(*value)
+			addr = fr.env[pi.dst].(*value)
 		}
 		*addr = zero(mustDeref(instr.Type()))
 
 	case *ssa.MakeSlice:
-		ln := fr.concretizeLen(fr.get(instr.Len), "makeslice: len out of range")
-		cp := fr.concretizeLen(fr.get(instr.Cap), "makeslice: cap out of range")
+		ln := fr.concretizeLen(fr.arg(pi, 0), "makeslice: len out of range")
+		cp := fr.concretizeLen(fr.arg(pi, 1), "makeslice: cap out of range")
 		if ln < 0 || ln > maxAlloc {
 			goPanic("runtime error: makeslice: len out of range")
 		}
@@ -291,7 +295,7 @@ func visitInstr(fr *frame, instr ssa.Instruction) continuation {
 		for i := range slice {
 			slice[i] = zero(tElt)
 		}
-		fr.env[instr] = slice[:ln]
+		fr.env[pi.dst] = slice[:ln]
 
 	case *ssa.MakeMap:
 		var reserve int64
@@ -301,77 +305,77 @@ func visitInstr(fr *frame, instr ssa.Instruction) continuation {
 		if reserve < 0 {
 			goPanic("runtime error: makemap: size out of range")
 		}
-		fr.env[instr] = makeMap(instr.Type().Underlying().(*types.Map).Key(), 0)
+		fr.env[pi.dst] = makeMap(instr.Type().Underlying().(*types.Map).Key(), 0)
 
 	case *ssa.Range:
-		fr.env[instr] = rangeIter(fr, fr.get(instr.X), instr.X.Type())
+		fr.env[pi.dst] = rangeIter(fr, fr.arg(pi, 0), instr.X.Type())
 
 	case *ssa.Next:
-		fr.env[instr] = fr.get(instr.Iter).(iter).next()
+		fr.env[pi.dst] = fr.arg(pi, 0).(iter).next()
 
 	case *ssa.FieldAddr:
-		p := fr.get(instr.X).(*value)
+		p := fr.arg(pi, 0).(*value)
 		if p == nil {
 			derefNil(fr)
 		}
-		fr.env[instr] = &(*p).(structure)[instr.Field]
+		fr.env[pi.dst] = &(*p).(structure)[instr.Field]
 
 	case *ssa.Field:
-		fr.env[instr] = fr.get(instr.X).(structure)[instr.Field]
+		fr.env[pi.dst] = fr.arg(pi, 0).(structure)[instr.Field]
 
 	case *ssa.IndexAddr:
-		x := fr.get(instr.X)
-		idx := fr.get(instr.Index)
+		x := fr.arg(pi, 0)
+		idx := fr.arg(pi, 1)
 		switch x := x.(type) {
 		case []value:
 			i := fr.concretizeIndex(idx, len(x))
-			fr.env[instr] = &x[i]
+			fr.env[pi.dst] = &x[i]
 		case *value: // *array
 			if x == nil {
 				derefNil(fr)
 			}
 			a := (*x).(array)
 			i := fr.concretizeIndex(idx, len(a))
-			fr.env[instr] = &a[i]
+			fr.env[pi.dst] = &a[i]
 		default:
 			panic(fmt.Sprintf("unexpected x type in IndexAddr: %T", x))
 		}
 
 	case *ssa.Index:
-		x := fr.get(instr.X)
-		idx := fr.get(instr.Index)
+		x := fr.arg(pi, 0)
+		idx := fr.arg(pi, 1)
 		switch x := x.(type) {
 		case array:
-			fr.env[instr] = x[fr.concretizeIndex(idx, len(x))]
+			fr.env[pi.dst] = x[fr.concretizeIndex(idx, len(x))]
 		case string:
-			fr.env[instr] = x[fr.concretizeIndex(idx, len(x))]
+			fr.env[pi.dst] = x[fr.concretizeIndex(idx, len(x))]
 		case *rope:
-			fr.env[instr] = x.index(fr, idx)
+			fr.env[pi.dst] = x.index(fr, idx)
 		default:
 			panic(fmt.Sprintf("unexpected x type in Index: %T", x))
 		}
 
 	case *ssa.Lookup:
-		fr.env[instr] = lookup(fr, instr, fr.get(instr.X), fr.get(instr.Index))
+		fr.env[pi.dst] = lookup(fr, instr, fr.arg(pi, 0), fr.arg(pi, 1))
 
 	case *ssa.MapUpdate:
-		m := fr.get(instr.Map).(*omap)
+		m := fr.arg(pi, 0).(*omap)
 		if m == nil {
 			goPanic("assignment to entry in nil map")
 		}
-		key := fr.mapKey(fr.get(instr.Key))
-		v := fr.get(instr.Value)
+		key := fr.mapKey(fr.arg(pi, 1))
+		v := fr.arg(pi, 2)
 		m.insertSym(fr, key, v)
 
 	case *ssa.TypeAssert:
-		fr.env[instr] = typeAssert(fr.i, instr, fr.get(instr.X).(iface))
+		fr.env[pi.dst] = typeAssert(fr.i, instr, fr.arg(pi, 0).(iface))
 
 	case *ssa.MakeClosure:
-		var bindings []value
-		for _, binding := range instr.Bindings {
-			bindings = append(bindings, fr.get(binding))
+		bindings := make([]value, len(instr.Bindings))
+		for k := range instr.Bindings {
+			bindings[k] = fr.arg(pi, k)
 		}
-		fr.env[instr] = &closure{instr.Fn.(*ssa.Function), bindings}
+		fr.env[pi.dst] = &closure{instr.Fn.(*ssa.Function), bindings}
 
 	case *ssa.Phi:
 		panic("unreachable: phi")
@@ -388,24 +392,30 @@ func visitInstr(fr *frame, instr ssa.Instruction) continuation {
 const maxAlloc = 1 << 26
 
 // prepareCall determines the function value and argument values for a call.
-func prepareCall(fr *frame, call *ssa.CallCommon) (fn value, args []value) {
-	v := fr.get(call.Value)
+// Operand layout (see compileInstr): ops[0] = call.Value, ops[1:] = call.Args.
+func prepareCall(fr *frame, call *ssa.CallCommon, pi *pinstr) (fn value, args []value) {
+	v := fr.arg(pi, 0)
 	if call.Method == nil {
 		fn = v
-	} else {
-		recv := v.(iface)
-		if recv.t == nil {
-			derefNil(fr)
+		args = make([]value, len(call.Args))
+		for k := range call.Args {
+			args[k] = fr.arg(pi, 1+k)
 		}
-		if f := lookupMethod(fr.i, recv.t, call.Method); f == nil {
-			panic(fmt.Sprintf("method set for dynamic type %v does not contain %s", recv.t, call.Method))
-		} else {
-			fn = f
-		}
-		args = append(args, recv.v)
+		return
 	}
-	for _, arg := range call.Args {
-		args = append(args, fr.get(arg))
+	recv := v.(iface)
+	if recv.t == nil {
+		derefNil(fr)
+	}
+	f := lookupMethod(fr.i, recv.t, call.Method)
+	if f == nil {
+		panic(fmt.Sprintf("method set for dynamic type %v does not contain %s", recv.t, call.Method))
+	}
+	fn = f
+	args = make([]value, 1+len(call.Args))
+	args[0] = recv.v
+	for k := range call.Args {
+		args[1+k] = fr.arg(pi, 1+k)
 	}
 	return
 }
@@ -421,6 +431,8 @@ func call(i *interpreter, caller *frame, callpos token.Pos, fn value, args []val
 		return callSSA(i, caller, callpos, fn.Fn, args, fn.Env)
 	case *ssa.Builtin:
 		return callBuiltin(caller, callpos, fn, args)
+	case nativeFn:
+		return fn(caller, args)
 	}
 	panic(fmt.Sprintf("cannot call %T", fn))
 }
@@ -493,18 +505,23 @@ func callSSA(i *interpreter, caller *frame, callpos token.Pos, fn *ssa.Function,
 		px.funcs[meta.name] = true
 	}
 
-	fr.env = make(map[ssa.Value]value, len(fn.Params)+len(fn.FreeVars)+8)
+	code := meta.code
+	if code == nil {
+		px.abort("engine", "no compiled code for %s", fn)
+	}
+	fr.code = code
+	fr.env = make([]value, code.nslots)
 	fr.block = fn.Blocks[0]
 	fr.locals = make([]value, len(fn.Locals))
 	for i, l := range fn.Locals {
 		fr.locals[i] = zero(mustDeref(l.Type()))
-		fr.env[l] = &fr.locals[i]
+		fr.env[code.slotOf[l]] = &fr.locals[i]
 	}
-	for i, p := range fn.Params {
-		fr.env[p] = args[i]
+	for i := range fn.Params {
+		fr.env[code.paramSlot[i]] = args[i]
 	}
-	for i, fv := range fn.FreeVars {
-		fr.env[fv] = env[i]
+	for i := range fn.FreeVars {
+		fr.env[code.freeSlot[i]] = env[i]
 	}
 	for fr.block != nil {
 		runFrame(fr)
@@ -515,6 +532,7 @@ func callSSA(i *interpreter, caller *frame, callpos token.Pos, fn *ssa.Function,
 var ForkLog = os.Getenv("VCHECK_FORKLOG") != ""
 
 type fnMeta struct {
+	code    *fnCode
 	name    string
 	ext     externalFn
 	pkgPath string
@@ -530,8 +548,11 @@ func fnMetaOf(fn *ssa.Function) *fnMeta {
 	m := &fnMeta{name: fn.String(), pkgPath: pkgPathOf(fn)}
 	m.ext = externals[m.name]
 	m.report = strings.HasPrefix(m.pkgPath, "github.com/sealdice/dicescript") || strings.HasSuffix(m.pkgPath, "x/exp/rand")
-	fnMetaCache.Store(fn, m)
-	return m
+	if fn.Blocks != nil && m.ext == nil {
+		m.code = compileFn(fn)
+	}
+	act, _ := fnMetaCache.LoadOrStore(fn, m)
+	return act.(*fnMeta)
 }
 
 func (px *pathCtx) maxDepth() int {
@@ -569,21 +590,25 @@ func runFrame(fr *frame) {
 	}()
 
 	px := fr.i.px
+	maxSteps := px.maxSteps()
 	for {
-		nonPhis := executePhis(fr)
-		if fr.i.isLoopHead(fr.block) {
+		bc := &fr.code.blocks[fr.block.Index]
+		executePhis(fr, bc)
+		if bc.loopHead {
 			fr.loopArrive()
 		}
-		for _, instr := range nonPhis {
-			fr.curInstr = instr
+		body := bc.instrs[bc.firstNonPhi:]
+		for k := range body {
+			pi := &body[k]
+			fr.curInstr = pi.instr
 			px.steps++
-			if px.steps > px.maxSteps() {
+			if px.steps > maxSteps {
 				px.hang(fr)
 			}
 			if fr.loopIter != nil {
-				fr.markImpure(instr)
+				fr.markImpure(pi.instr)
 			}
-			if visitInstr(fr, instr) == kReturn {
+			if visitInstr(fr, pi) == kReturn {
 				return
 			}
 		}
@@ -601,28 +626,18 @@ func (px *pathCtx) hang(fr *frame) {
 	px.abort("steps", "step limit %d exceeded in %s", px.maxSteps(), fr.fn)
 }
 
-func executePhis(fr *frame) []ssa.Instruction {
-	firstNonPhi := -1
-	for i, instr := range fr.block.Instrs {
-		if _, ok := instr.(*ssa.Phi); !ok {
-			firstNonPhi = i
-			break
-		}
+func executePhis(fr *frame, bc *blockCode) {
+	if bc.firstNonPhi == 0 {
+		return
 	}
-	nonPhis := fr.block.Instrs[firstNonPhi:]
-	if firstNonPhi > 0 {
-		phis := fr.block.Instrs[:firstNonPhi]
-		predIndex := slices.Index(fr.block.Preds, fr.prevBlock)
-		fr.phitemps = fr.phitemps[:0]
-		for _, phi := range phis {
-			phi := phi.(*ssa.Phi)
-			fr.phitemps = append(fr.phitemps, fr.get(phi.Edges[predIndex]))
-		}
-		for i, phi := range phis {
-			fr.env[phi.(*ssa.Phi)] = fr.phitemps[i]
-		}
+	predIndex := slices.Index(fr.block.Preds, fr.prevBlock)
+	fr.phitemps = fr.phitemps[:0]
+	for k := 0; k < bc.firstNonPhi; k++ {
+		fr.phitemps = append(fr.phitemps, fr.arg(&bc.instrs[k], predIndex))
 	}
-	return nonPhis
+	for k := 0; k < bc.firstNonPhi; k++ {
+		fr.env[bc.instrs[k].dst] = fr.phitemps[k]
+	}
 }
 
 // doRecover implements the recover() built-in.
